@@ -25,3 +25,54 @@ fn orientation_decision_contract() {
     core::mem::forget(t);
     core::mem::forget(cell);
 }
+
+// C09: after a committed insertion the duplicate index files the vertex under the coordinates
+// the triangulation STORES for it (which differ from the caller's when a perturbation retry
+// succeeded) - K-slice of the index-update statement of insert_transactional.
+use crate::core::collections::spatial_hash_grid::HashGridIndex;
+use crate::core::vertex::Vertex;
+use crate::geometry::point::Point;
+use crate::geometry::traits::coordinate::Coordinate as _;
+use core::sync::atomic::{AtomicU64, Ordering as AOrd};
+static FILED_X: AtomicU64 = AtomicU64::new(0);
+static FILED_Y: AtomicU64 = AtomicU64::new(0);
+static FILED_N: AtomicU64 = AtomicU64::new(0);
+static STORED_X: AtomicU64 = AtomicU64::new(0);
+static STORED_Y: AtomicU64 = AtomicU64::new(0);
+
+fn stub_stored_vertex<T, U, V, const D: usize>(_t: &Tds<T, U, V, D>, _v: VertexKey) -> Option<&'static Vertex<T, U, D>>
+where T: CoordinateScalar, U: DataType, V: DataType {
+    let mut c = [T::zero(); D];
+    c[0] = <T as num_traits::NumCast>::from(f64::from_bits(STORED_X.load(AOrd::Relaxed))).unwrap_or_else(T::zero);
+    if D > 1 { c[1] = <T as num_traits::NumCast>::from(f64::from_bits(STORED_Y.load(AOrd::Relaxed))).unwrap_or_else(T::zero); }
+    Some(Box::leak(Box::new(Vertex::new_with_uuid(Point::new(c), uuid::Uuid::nil(), None))))
+}
+fn stub_index_insert<T, const D: usize, K>(_g: &mut HashGridIndex<T, D, K>, _k: K, coords: &[T; D])
+where T: CoordinateScalar, K: Copy {
+    FILED_N.store(1, AOrd::Relaxed);
+    FILED_X.store(coords[0].to_f64().unwrap_or(f64::NAN).to_bits(), AOrd::Relaxed);
+    if D > 1 { FILED_Y.store(coords[1].to_f64().unwrap_or(f64::NAN).to_bits(), AOrd::Relaxed); }
+}
+
+#[kani::proof]
+#[kani::unwind(4)]
+#[kani::stub(Tds::get_vertex_by_key, stub_stored_vertex)]
+#[kani::stub(HashGridIndex::insert_vertex, stub_index_insert)]
+fn index_update_uses_stored_coords_contract() {
+    let t = Triangulation::<FastKernel<f64>, (), (), 2>::new_empty(FastKernel::new());
+    let (sx, sy, ox, oy): (f64, f64, f64, f64) = (kani::any(), kani::any(), kani::any(), kani::any());
+    kani::assume(sx.is_finite() && sy.is_finite() && ox.is_finite() && oy.is_finite());
+    STORED_X.store(sx.to_bits(), AOrd::Relaxed);
+    STORED_Y.store(sy.to_bits(), AOrd::Relaxed);
+    FILED_N.store(0, AOrd::Relaxed);
+    let mut grid: HashGridIndex<f64, 2> = HashGridIndex::new(1e-10);
+    let vk = VertexKey::from(KeyData::from_ffi(0x1_0000_0003));
+    let original_coords = [ox, oy];
+    t.verif_slice_index_update(Some(&mut grid), vk, original_coords);
+    assert!(FILED_N.load(AOrd::Relaxed) == 1, "OBL index-updated: a committed insertion is recorded in the duplicate index");
+    assert!(FILED_X.load(AOrd::Relaxed) == sx.to_bits() && FILED_Y.load(AOrd::Relaxed) == sy.to_bits(),
+        "OBL filed-under-stored-coords: the vertex is filed under the coordinates the triangulation stores for it (not the caller's, which differ after a perturbation retry)");
+    kani::cover!(sx != ox, "COV stored differs from requested");
+    core::mem::forget(grid);
+    core::mem::forget(t);
+}
